@@ -344,8 +344,13 @@ class Verifier(Engine):
             raise BindingError('call to %s: no contract' % key)
         if key in self.ctr.inline:
             return self.call_inline(st, qual, ctr, args, kwargs, setter)
-        if ctr.trusted and ctr.params:
-            fn_node = None
+        fn_node = None
+        try:
+            fn_node, _, _ = source.find_def(qual, 'setter' if setter else None)
+        except BindingError:
+            if not (ctr.trusted and ctr.params):
+                raise
+        if fn_node is None:
             names = list(ctr.params)
             bound = dict(zip(names, args))
             bound.update(kwargs)
@@ -353,7 +358,6 @@ class Verifier(Engine):
                 if n not in bound:
                     raise OutOfSubset('trusted contract %s: missing argument %s' % (qual, n))
         else:
-            fn_node, _, _ = source.find_def(qual, 'setter' if setter else None)
             bound = self.bind_args(ctr, fn_node, args, kwargs, st)
         for n, k in ctr.params.items():
             if n in bound:
